@@ -439,6 +439,15 @@ def check_rle(rep, ix):
     ok = ok and bool(body) and body[0] in (f'{fr},v=r.tellLrForFrame({fr})', f'({fr},v)=r.tellLrForFrame({fr})') and \
         any(_n(x.value) == f'(v[0],{fr})' for x in common.returns_of(f) if x.value is not None)
     rep.ob('R-C06-LOCAL', f'{RL}:RLEType01.tellLrForFrame', 'frame lookup walks the runs in order, carrying the remaining frame number, and returns (record position, offset)', ok, found=str(body), node=f, module=m)
+    # last X of a log pass = X of the last record + (frames in that last record - 1) x spacing: the last run's own frame count
+    # (a short last record has fewer frames than the first)
+    xl = ix.find_func(RL, 'RLEType01.xAxisLastFrame')
+    if xl is not None:
+        rl = [x for x in common.returns_of(xl) if x.value is not None and not (isinstance(x.value, ast.Constant) and x.value.value is None)]
+        subs = sorted({_n(n) for x in rl for n in ast.walk(defuse.inline_locals(xl, x.value, depth=2)) if isinstance(n, ast.Subscript) and _n(n.value) in ('self.rle_items', 'self._rleS')})
+        ok = len(rl) == 1 and subs in (['self.rle_items[-1]'], ['self._rleS[-1]']) and 'xAxisLast()' in _n(rl[0].value) and 'numFrames-1' in _n(defuse.inline_locals(xl, rl[0].value, depth=2))
+        rep.ob('R-C06-LOCAL', f'{RL}:RLEType01.xAxisLastFrame', 'the last X value is computed from the last run only (its X and its frames per record)', ok,
+               found=f'runs used: {subs}', required='self.rle_items[-1] throughout', node=xl, module=m)
     it = ix.get_func(RL, 'RLEItemType01.tellLrForFrame')
     rep.fn(f'{RL}:RLEItemType01.tellLrForFrame')
     fa = it.args.args[1].arg
